@@ -8,7 +8,7 @@ use crate::ours::{encode, Container, Spec};
 use crate::props::c02;
 use crate::util::{first_diff, hash64, Rng};
 
-pub const STEER: u64 = 8;
+pub const STEER: u64 = 12;
 
 pub fn n_cases(ctx: &Ctx) -> u64 {
     let base = match (ctx.variant.as_str(), ctx.thorough()) {
@@ -37,10 +37,58 @@ fn churn(r: &mut Rng) {
     }
 }
 
+/// Write partitions (no flushes) whose boundaries and tiny writes sit around the position at which
+/// the encoder's window moves: the compressed bytes must equal the single-write output.
+fn slide_case(idx: u64, r: &mut Rng) -> Vec<CaseOut> {
+    use crate::props::c07;
+    let comps = c07::slide_components();
+    let c = comps[idx as usize % comps.len()].clone();
+    let spec = Spec { c: c.clone(), o: c07::slide_opts(r) };
+    let cname = format!("{}[window-slide]", c.name());
+    let cell = format!("{cname}|partition");
+    let (data, edge, _e2, plans) = match c07::slide_setup(&spec, &cname, &cell, r) {
+        Ok(x) => x,
+        // a failing or panicking probing encode is judged by C07/C01
+        Err(o) => return vec![CaseOut::skip(cell, "probing encode failed (judged by C07)", o.desc)],
+    };
+    let reference = match catch(|| encode(&spec, &data, &[data.len()], 0)) {
+        Ok(Ok(b)) => b,
+        _ => return vec![CaseOut::skip(cell, "single-write encode failed (judged by C01/C02)", spec.desc())],
+    };
+    let mut out = Vec::new();
+    for (what, partition, flush_every) in plans {
+        if flush_every != 0 {
+            continue;
+        }
+        stat_add("partitions", 1);
+        stat_add("window_slide_partitions", 1);
+        let desc = format!("{} len={} window moved in the write at {edge}: {what}", spec.desc(), data.len());
+        match catch(|| encode(&spec, &data, &partition, 0)) {
+            Ok(Ok(b)) => {
+                if b != reference {
+                    out.push(CaseOut::viol(cell.clone(), format!("partition-changes-output {cname}"), first_diff(&b, &reference), desc));
+                } else {
+                    out.push(CaseOut::held(cell.clone(), true, desc));
+                }
+            }
+            Ok(Err(e)) => out.push(CaseOut::viol(cell.clone(), format!("enc-err {cname} {e}"), "", desc)),
+            Err(_) => out.push(CaseOut::skip(cell.clone(), "encode panicked (judged by C07)", desc)),
+        }
+    }
+    out
+}
+
 pub fn run_case(ctx: &Ctx, idx: u64) -> Vec<CaseOut> {
     let mut r = ctx.rng(idx);
     let tiny = ctx.slow();
-    let kind = if idx < STEER { idx } else { r.below(8) };
+    let kind = if idx < STEER { idx } else { r.below(9) };
+    if kind >= 8 {
+        if tiny || ctx.is("tsan") {
+            // 1 MB encodes are out of reach of the interpreters; the single-threaded writers have no threads to race
+            return vec![CaseOut::skip("window-slide|partition", "not run under this variant", "")];
+        }
+        return slide_case(idx, &mut r);
+    }
     let lzma1 = kind == 0;
     let mut o = gen::gen_lzma_opts(&mut r, !lzma1, false);
     if tiny {
